@@ -25,6 +25,8 @@ CONSTANTS
   LateInitSel = FALSE
   Snap = "none"
   SnapFails = FALSE
+  Snap2 = "none"
+  RstFile = "f"
   Rst = "none"
   Rep = "rep"
   Late <- LateNone
